@@ -23,10 +23,19 @@ pub fn dispatch(op: &str, a: &[Term]) -> Option<Term> {
         "zp_sub" => tzp(&(&zp(&a[0]) - &zp(&a[1]))),
         "zp_neg" => tzp(&(-&zp(&a[0]))),
         "zp_mul" => tzp(&(&zp(&a[0]) * &zp(&a[1]))),
+        // the by-value operator impls are separate code paths
+        "zp_add_owned" => tzp(&(zp(&a[0]) + zp(&a[1]))),
+        "zp_sub_owned" => tzp(&(zp(&a[0]) - zp(&a[1]))),
+        "zp_neg_owned" => tzp(&(-zp(&a[0]))),
+        "zp_mul_owned" => tzp(&(zp(&a[0]) * zp(&a[1]))),
+        "qp_add_owned" => tqp(&(qp(&a[0]) + qp(&a[1]))),
+        "qp_sub_owned" => tqp(&(qp(&a[0]) - qp(&a[1]))),
+        "qp_mul_owned" => tqp(&(qp(&a[0]) * qp(&a[1]))),
         // third argument (profile) is only read by the model
         "zp_of" => tb(&zp(&a[0]).of(&a[1].int())),
         "zp_diff" => tzp(&zp(&a[0]).differential()),
         "zp_deg" => ti(zp(&a[0]).deg() as u64),
+        "zp_coef_at" => tb(&zp(&a[0]).coef_at(a[1].usize())),
         "zp_eq" => tbool(zp(&a[0]) == zp(&a[1])),
         "zp_pseudo_div_rem" => {
             let (q, r) = polynomial::pseudo_div_rem_bigint(&zp(&a[0]), &zp(&a[1]));
